@@ -29,7 +29,8 @@ class SimThread(object):
     __slots__ = ('sim', 'tid', 'name', 'fn', 'state', 'sem', 'pred',
                  'deadline', 'timed_out', 'reason', 'os_thread', 'exc',
                  'kind', 'obj', 'result', 'io_ops', 'started_seq',
-                 'ended_seq', 'steps', 'poll', 'soft')
+                 'ended_seq', 'steps', 'poll', 'soft', 'step_budget',
+                 'blocked_at')
 
     def __init__(self, sim, tid, name, fn, kind, obj=None):
         self.sim, self.tid, self.name, self.fn = sim, tid, name, fn
@@ -45,6 +46,8 @@ class SimThread(object):
         self.io_ops = 0
         self.poll = False
         self.soft = False
+        self.step_budget = None
+        self.blocked_at = 0
         self.steps = 0
         self.started_seq = None
         self.ended_seq = None
@@ -232,19 +235,34 @@ class Sim(object):
         if not self.dirty:
             if self.pollers:
                 for th in self.threads:
-                    if th.state == BLOCKED and th.poll and th.pred():
-                        th.state = RUNNABLE
-                        th.pred = None
-                        th.deadline = None
-                        th.timed_out = False
+                    if th.state == BLOCKED and th.poll:
+                        if th.pred():
+                            th.state = RUNNABLE
+                            th.pred = None
+                            th.deadline = None
+                            th.timed_out = False
+                        elif th.step_budget is not None and \
+                                self.steps > th.step_budget:
+                            self._soft_timeout(th)
             return
         self.dirty = False
         for th in self.threads:
-            if th.state == BLOCKED and th.pred is not None and th.pred():
-                th.state = RUNNABLE
-                th.pred = None
-                th.deadline = None
-                th.timed_out = False
+            if th.state == BLOCKED and th.pred is not None:
+                if th.pred():
+                    th.state = RUNNABLE
+                    th.pred = None
+                    th.deadline = None
+                    th.timed_out = False
+                elif th.soft and th.step_budget is not None and \
+                        self.steps > th.step_budget:
+                    self._soft_timeout(th)
+
+    def _soft_timeout(self, th):
+        th.state = RUNNABLE
+        th.pred = None
+        th.deadline = None
+        th.timed_out = True
+        self.stat('harness-wait-gave-up')
 
     def _switch_to(self, me, target):
         """Hand the baton to target; park me (unless exiting)."""
@@ -311,7 +329,8 @@ class Sim(object):
                 return True
         return False
 
-    def block(self, pred, timeout_us=None, reason='', poll=False):
+    def block(self, pred, timeout_us=None, reason='', poll=False,
+              patient=None, budget=True):
         """Block the running thread until pred() or the deadline.
         Returns True if woken by pred, False on time-out.  poll=True: pred
         depends on non-simulator state and is re-evaluated at every step."""
@@ -320,15 +339,34 @@ class Sim(object):
         me = self.current
         if pred():
             return True
+        if patient is None:
+            patient = poll
         if poll and not me.poll:
             me.poll = True
-            me.soft = True
             self.pollers += 1
         me.state = BLOCKED
         me.pred = pred
         me.reason = reason
         me.timed_out = False
-        me.deadline = None if timeout_us is None else self.now + timeout_us
+        self._blockn = getattr(self, '_blockn', 0) + 1
+        me.blocked_at = self._blockn
+        if patient:
+            # a harness wait: it never expires on the virtual clock (a slow
+            # thread is legal); it gives up when the system is quiescent, or
+            # after a generous number of scheduler steps without success
+            me.soft = True
+            me.deadline = None
+            if budget is True:
+                me.step_budget = self.steps + max(self.max_steps // 3, 20000)
+            elif budget:
+                me.step_budget = self.steps + int(budget)
+            else:
+                me.step_budget = 10**15
+        else:
+            me.soft = False
+            me.step_budget = None
+            me.deadline = None if timeout_us is None \
+                else self.now + timeout_us
         self._reschedule(me)
         return not me.timed_out
 
@@ -357,6 +395,16 @@ class Sim(object):
                     n += 1
                 return
             if not self._fire_next():
+                waiters = [t for t in self.threads
+                           if t.state == BLOCKED and t.soft and
+                           t.step_budget is not None]
+                if waiters:
+                    # true quiescence: nothing can run and nothing is
+                    # scheduled - the most recently started harness wait
+                    # gives up (older waits usually wait for that thread)
+                    self._soft_timeout(max(waiters,
+                                           key=lambda t: t.blocked_at))
+                    continue
                 self.abort('deadlock', [(t.name, t.reason)
                                         for t in self.threads
                                         if t.state == BLOCKED])
